@@ -245,6 +245,9 @@ def xml_roundtrip(tier, seed):
         # lxml lets an element in no namespace carry a default namespace declaration, which no XML text can express: dropped for lxml
         no_default = lambda x: x[:3] + (tuple(d for d in x[3] if d[0]),) + x[4:6] + (tuple(no_default(k) for k in x[6]),)     # noqa
         root = T.realise(t if lib == 'et' else no_default(t), lib)
+        if lib == 'lxml' and ti % 2 == 0:
+            root.addprevious(LX.Comment(' prolog '))
+            root.addnext(LX.ProcessingInstruction('epilog', 'x="1"'))
         rn = get_node_tree(ET.ElementTree(root) if lib == 'et' else LX.ElementTree(root))
         nodes = [rn] + [x for x in rn.iter_descendants() if hasattr(x, 'elem') and not callable(x.elem.tag)]
         for node in nodes[: (4 if tier == 'quick' else 12)]:
